@@ -7,16 +7,20 @@ from . import paths as P
 from . import typestate
 
 EXPLANATION = (
-    "Decides structural necessary conditions of C09 from MIR: (R1) SyncCodec::decode parses a frame only on paths that passed "
-    "src.len() >= 4, frame_len <= MAX_MESSAGE_SIZE (else Err) and src.len() >= 4 + frame_len (else Ok(None)), consumes bytes only "
-    "after a successful parse, and encode rejects len > MAX_MESSAGE_SIZE; (R2) the encoder only appends: every index into dst and "
-    "the resize target are computed from dst's length at entry; (R3) hostile-data panic sites: inventory of unwrap/expect/"
-    "slice-index/advance/panic sites in the decoders, the wire types' accessors and the session functions, each discharged by a "
-    "dominating length guard, by a declared type invariant whose own rule holds (every construction of RecordIdentifier happens "
-    "in a validating constructor; a derived Deserialize building it from unchecked bytes violates it), by the option-field "
-    "typestate rule, or by a table line naming one site with a reason; anything else is UNAUDITED; (R4) FilterKind Display/"
-    "FromStr tag agreement and DocTicket::decode_bytes rejecting an empty node list. NOT decided: byte-exact round trip for all "
-    "values and chunkings (postcard / tokio_util trusted), pinned encodings (the snapshot tests cover them)."
+    "Decides structural necessary conditions of C09 from MIR. R1/R2 are obtained by abstract evaluation of the codec's MIR "
+    'over a byte-buffer model (length, index/get with any std range - an out-of-bounds index, a failed unwrap/expect or an '
+    'over-long advance DIVERGES -, length prefix, parse outcome) on a grid of (buffer length, declared frame length, parse '
+    'outcome) resp. (bytes already buffered, message size): (R1) SyncCodec::decode parses a frame only after src.len() >= '
+    '4, frame_len <= MAX_MESSAGE_SIZE (else Err) and src.len() >= 4 + frame_len (else Ok(None)), consumes bytes only after '
+    'a successful parse, and encode rejects len > MAX_MESSAGE_SIZE; (R2) the encoder only appends: every index into dst and'
+    " the resize target are computed from dst's length at entry; (R3) hostile-data panic sites: inventory of "
+    "unwrap/expect/slice-index/advance/panic sites in the decoders, the wire types' accessors and the session functions, "
+    'each discharged by a dominating length guard, by a declared type invariant whose own rule holds (every construction of'
+    ' RecordIdentifier happens in a validating constructor; a derived Deserialize building it from unchecked bytes violates'
+    ' it), by the option-field typestate rule, or by a table line naming one site with a reason; anything else is '
+    'UNAUDITED; (R4) FilterKind Display/FromStr tag agreement and DocTicket::decode_bytes rejecting an empty node list. NOT'
+    ' decided: byte-exact round trip for all values and chunkings (postcard / tokio_util trusted), pinned encodings (the '
+    'snapshot tests cover them).'
 )
 ASSUMPTIONS = ["postcard never panics on malformed input (trusted)", "tokio_util::codec calls decode with the accumulated buffer"]
 
